@@ -211,7 +211,10 @@ def generate(rng, tier):
     for _ in range(200 if quick else 10000):
         cases.append({"stream": "write", "input": {"kind": "write", "text": gen_text(rng), "parse": rng.choice(PARSE_OPTS),
                                                     "format": rng.randrange(len(FORMATS)),
-                                                    "prepend": [rng.choice(SPECS)] if rng.random() < 0.25 else None}})
+                                                    # None, empty (list / tuple), one or two copy-mode middlewares
+                                                    "prepend": rng.choice([None, None, None, [], [], [rng.choice(SPECS)],
+                                                                           [rng.choice(SPECS)], [rng.choice(SPECS), rng.choice(SPECS)]]),
+                                                    "prepend_tuple": rng.random() < 0.3}})
     cases += H.generate(rng, tier, gen_text, PARSE_OPTS)
     return cases
 
@@ -288,7 +291,7 @@ def impl(case):
         return H.impl(case, parse)
     import heapsnap as HS
     import bibtexparser
-    rec = {"sx_in": None, "sx_out": None, "key": json.dumps([inp["text"], inp["parse"], inp.get("stack"), inp.get("format"), inp.get("prepend")])}
+    rec = {"sx_in": None, "sx_out": None, "key": json.dumps([inp["text"], inp["parse"], inp.get("stack"), inp.get("format"), inp.get("prepend"), inp.get("prepend_tuple")])}
     tags = []
     try:
         lib = parse(inp["text"], inp["parse"])
@@ -370,8 +373,10 @@ def impl(case):
             fmap = HS.identity_map(fmt) if fmt is not None else None
             texts = []
             kw = {}
-            if inp.get("prepend"):
+            if inp.get("prepend") is not None:
                 kw["prepend_middleware"] = [make_mw(s, False) for s in inp["prepend"]]
+                if inp.get("prepend_tuple"):
+                    kw["prepend_middleware"] = tuple(kw["prepend_middleware"])
 
             def run(l):
                 try:
